@@ -145,9 +145,7 @@ func (r *coreRun) loadLimits() {
 		}
 		for n := -2; n <= tot+2; n++ {
 			for _, mh := range []bool{false, true} {
-				if mh && n <= 0 {
-					continue
-				}
+
 				r.step = n
 				got, err := r.limitedLoad(name, n, mh)
 				r.res.Comparisons++
@@ -403,6 +401,125 @@ func (r *coreRun) snapshotOf(name string, what string, allowExtra []int) {
 	}
 	if len(allowExtra) == 0 {
 		r.staleSnapshot(name, what, len(saved.listing))
+		r.growingSnapshot(name, what, len(saved.listing))
+	}
+}
+
+// growingSnapshot: the log grows while a snapshot of it is being saved (a local write lands between two of the
+// reads SaveSnapshot makes of the log). Saving then either fails or writes a snapshot that a fresh instance loads:
+// everything held before the save began is in it, nothing that was never written.
+func (r *coreRun) growingSnapshot(name, what string, nsaved int) {
+	ctx := context.Background()
+	h := sim.TheHub
+	p := r.c.nodes[name].P
+	q := p.CloneDurable(p.EffectCount())
+	node, err := q.Start("")
+	if err != nil {
+		return
+	}
+	defer node.Close()
+	ref, err := node.Open(r.c.addr, realType(r.in.Type), &orbitdb.CreateDBOptions{Timeout: 3 * time.Second})
+	if err != nil {
+		return
+	}
+	if err := ref.S.Load(ctx, -1); err != nil || ref.S.OpLog().Len() != nsaved {
+		return
+	}
+	write := func(tag string) error {
+		switch r.in.Type {
+		case "kv":
+			_, err := ref.S.(orbitdb.KeyValueStore).Put(ctx, tag, []byte(tag))
+			return err
+		case "doc":
+			_, err := ref.S.(orbitdb.DocumentStore).Put(ctx, map[string]interface{}{"_id": tag, "abs": tag})
+			return err
+		}
+		_, err := ref.S.(orbitdb.EventLogStore).Add(ctx, []byte(tag))
+		return err
+	}
+	if write("before-the-snapshot") != nil {
+		return // not a writer
+	}
+	mineS := func(args []interface{}) bool { return len(args) > 0 && sim.K(args[0]) == sim.K(ref.S) }
+	h.ParkAt("snapshot.header", mineS)
+	h.ParkAt("snapshot.entries", mineS)
+	defer func() {
+		h.Unpark("snapshot.header")
+		h.Unpark("snapshot.entries")
+	}()
+	saved := make(chan error, 1)
+	go func() {
+		_, err := basestore.SaveSnapshot(ctx, ref.S)
+		saved <- err
+	}()
+	// at the first of the two points SaveSnapshot reaches, one more entry is written
+	var first *sim.Parked
+	var early error
+	returned := false
+	deadline := time.Now().Add(3 * time.Second)
+	for first == nil && !returned && time.Now().Before(deadline) {
+		for _, pk := range h.ParkedList() {
+			if (pk.Point == "snapshot.header" || pk.Point == "snapshot.entries") && mineS(pk.Args) {
+				first = pk
+			}
+		}
+		select {
+		case early = <-saved:
+			returned = true
+		case <-time.After(500 * time.Microsecond):
+		}
+	}
+	if first == nil {
+		_ = early // saving failed before it read the log twice ("or saving fails"), or never got there
+		return
+	}
+	werr := write("during-the-snapshot")
+	h.Unpark("snapshot.header")
+	h.Unpark("snapshot.entries")
+	for _, pk := range h.ParkedList() {
+		if (pk.Point == "snapshot.header" || pk.Point == "snapshot.entries") && mineS(pk.Args) {
+			h.Release(pk)
+		}
+	}
+	var serr error
+	select {
+	case serr = <-saved:
+	case <-time.After(8 * time.Second):
+		r.violate("snapshot-silent", what+": SaveSnapshot does not return when the log grows while it runs", nil, nil)
+		return
+	}
+	r.res.Comparisons++
+	r.res.Stats["growing_snapshots"]++
+	if serr != nil || werr != nil {
+		return // "or saving fails"
+	}
+	if err := sim.Settle(5*time.Second, node); err != nil {
+		r.res.note("%s: %s: stale snapshot: %v", r.bid, what, err)
+	}
+	q2 := q.CloneDurable(q.EffectCount())
+	node2, err := q2.Start("")
+	if err != nil {
+		return
+	}
+	defer node2.Close()
+	ref2, err := node2.Open(r.c.addr, realType(r.in.Type), &orbitdb.CreateDBOptions{Timeout: 3 * time.Second})
+	if err != nil {
+		return
+	}
+	loaded := make(chan error, 1)
+	go func() { loaded <- ref2.S.LoadFromSnapshot(ctx) }()
+	select {
+	case err = <-loaded:
+	case <-time.After(10 * time.Second):
+		r.violate("snapshot-silent", what+": a snapshot saved while the log was growing is never loaded (LoadFromSnapshot does not return)", nil, nil)
+		return
+	}
+	if err != nil {
+		r.violate("snapshot-silent", fmt.Sprintf("%s: SaveSnapshot succeeded while a write landed between its reads of the log (first point reached: %s); the snapshot cannot be loaded: %v", what, first.Point, err), nil, nil)
+		return
+	}
+	if got := ref2.S.OpLog().Len(); got < nsaved+1 || got > nsaved+2 {
+		r.violate("snapshot-mismatch", fmt.Sprintf("%s: a snapshot saved while the log grew from %d to %d entries loads %d", what, nsaved+1, nsaved+2, got), nil, got)
 	}
 }
 
@@ -450,7 +567,9 @@ func (r *coreRun) staleSnapshot(name, what string, nsaved int) {
 		r.res.note("%s: %s: LoadFromSnapshot on a loaded store: %v", r.bid, what, err)
 		return
 	}
-	_ = sim.Settle(5*time.Second, node)
+	if err := sim.Settle(5*time.Second, node); err != nil {
+		r.res.note("%s: %s: stale snapshot: %v", r.bid, what, err)
+	}
 	r.res.Comparisons++
 	r.res.Stats["stale_snapshots"]++
 	kind := "snapshot-mismatch"
